@@ -71,6 +71,7 @@ struct http_cookie {
 static int callback_connected(void *, int);
 static int callback_read_header(void *, int);
 static int gotheaders(struct http_cookie *, uint8_t *, size_t);
+static int callback_chunkedeol(void *, int);
 static int callback_chunkedheader(void *, int);
 static int get_body_gotclen(struct http_cookie *, size_t);
 static int callback_read_toeof(void *, int);
@@ -630,11 +631,8 @@ callback_readdata(void * cookie, int status)
 	if (H->readlen == 0) {
 		/* Was this just one chunk from a chunked encoding? */
 		if (H->chunked) {
-			/* Strip the trailing EOL. */
-			H->res.bodylen -= 2;
-
-			/* Get the next chunk. */
-			return (callback_chunkedheader(H, 0));
+			/* Skip the EOL which follows the chunk data. */
+			return (callback_chunkedeol(H, 0));
 		}
 
 		/* If not, just do the callback. */
@@ -658,6 +656,33 @@ callback_readdata(void * cookie, int status)
 
 	/* Success! */
 	return (0);
+}
+
+/* Skip the EOL after a chunk's data, then read the next chunk header. */
+static int
+callback_chunkedeol(void * cookie, int status)
+{
+	struct http_cookie * H = cookie;
+	uint8_t * buf;
+	size_t buflen;
+
+	/* Did we fail?  (EOF here is a failure: The body is incomplete.) */
+	if (status)
+		return (fail(H));
+
+	/* Wait until the two bytes have arrived. */
+	netbuf_read_peek(H->R, &buf, &buflen);
+	if (buflen < 2) {
+		if (netbuf_read_wait(H->R, 2, callback_chunkedeol, H))
+			return (die(H));
+		return (0);
+	}
+
+	/* Consume the EOL. */
+	netbuf_read_consume(H->R, 2);
+
+	/* Get the next chunk. */
+	return (callback_chunkedheader(H, 0));
 }
 
 /* Read and parse a chunked header line. */
@@ -718,11 +743,9 @@ callback_chunkedheader(void * cookie, int status)
 		/* Otherwise, check that it's not too big. */
 		if (clen > H->res_bodylen_max - H->res.bodylen)
 			return (toobig(H));
-		if (clen > SIZE_MAX - 2)
-			return (toobig(H));
 
-		/* Read the chunk data plus extra EOL (we strip it later). */
-		H->readlen = clen + 2;
+		/* Read the chunk data (the EOL after it is skipped later). */
+		H->readlen = clen;
 		return (callback_readdata(H, 0));
 	}
 
